@@ -296,8 +296,17 @@ Definition run_bsearch (x : xval) : xval :=
   | _ => bad_input
   end.
 
+(** [get_present_fn] lists the predicate-bound Present vector (it returned the present_file map before
+    the repair): after add 7 "seven", add 3 "three" on [Extensions::empty()] and one present_file. *)
+Definition run_present_fn_getter (x : xval) : xval :=
+  match obind (add_sorted_list [] 7%Z false (B "seven")) (fun l => add_sorted_list l 3%Z false (B "three")) with
+  | Ok l => x_listing l
+  | _ => XL [XN 77]
+  end.
+
 Definition registry_table : list (bytes * (xval -> xval)) :=
   [ (B "reg.ops", run_registry);
     (B "reg.ops_v0", run_registry_v0);
     (B "reg.spec", run_registry_spec);
+    (B "reg.present_fn_getter", run_present_fn_getter);
     (B "std.bsearch", run_bsearch) ].
